@@ -219,7 +219,7 @@ AbstractStep == [][FM!Next]_g
 (* canonical form independent of node ids: VIEW and state id for the edge cover *)
 RECURSIVE Canon(_)
 Canon(n) == IF n = Nil THEN <<>> ELSE <<nd[n].k, nd[n].v, IF nd[n].red THEN 1 ELSE 0, Canon(nd[n].l), Canon(nd[n].r)>>
-view == <<Canon(root), nitems, err>>
+view == <<Canon(root), nitems, err, g>>
 RECURSIVE CanonP(_, _)
 CanonP(N, n) == IF n = Nil THEN <<>> ELSE <<N[n].k, N[n].v, IF N[n].red THEN 1 ELSE 0, CanonP(N, N[n].l), CanonP(N, N[n].r)>>
 EmitEdge == Emit => PrintT(<<"EDGE", ToJson([f |-> CanonP(nd, root), a |-> act', t |-> CanonP(nd', root')])>>)
